@@ -93,19 +93,21 @@ Definition cs_candidate (k : nat) (b : bytes) : option N :=
   | None => None
   end.
 
-Definition cs_spec (bound : option N) (b : bytes) : option (N * N) :=
+Definition cs_first (b : bytes) : option (N * N) :=
   let try k := match cs_candidate k b with Some v => Some (v, N.of_nat k) | None => None end in
-  let r := match try 1%nat with Some x => Some x | None =>
-           match try 3%nat with Some x => Some x | None =>
-           match try 5%nat with Some x => Some x | None => try 9%nat end end end in
-  match r, bound with
+  match try 1%nat with Some x => Some x | None =>
+  match try 3%nat with Some x => Some x | None =>
+  match try 5%nat with Some x => Some x | None => try 9%nat end end end.
+
+Definition cs_spec (bound : option N) (b : bytes) : option (N * N) :=
+  match cs_first b, bound with
   | Some (v, k), Some mx => if v <=? mx then Some (v, k) else None
-  | _, _ => r
+  | r, _ => r
   end.
 
 (** Vector<u8> and Optional<u32le> of zcash_encoding, specified directly on the bytes. *)
 Definition vec_spec (b : bytes) : option (bytes * N) :=
-  match cs_spec (Some 33554432) b with
+  match cs_spec (Some MAX_COMPACT_SIZE) b with
   | Some (len, k) =>
       let rest := skipn (N.to_nat k) b in
       if len <=? nlen rest then Some (firstn (N.to_nat len) rest, k + len) else None
